@@ -12,6 +12,8 @@ RULE = ("arrays of 1-4 dims with disjoint label sets, mixed label kinds, distinc
         "and drop singletons; 'tuplereduce' compares reduction over a tuple of dims with the flattened group and NumPy. "
         "class = (family, ndim, regime, kinds, subset size / target shape); trivial = none")
 ANCHORS = ["reshape.flatten", "reshape.unflatten", "reshape.reshape", "axes._get_values", "axes._flatten", "transform._deal_with_axis"]
+# entry points the workload calls itself; the other anchors are helpers behind them (counted as evidence only)
+ANCHORS_REQUIRED = ["reshape.flatten", "reshape.unflatten", "reshape.reshape"]
 FLOORS = {"quick": {"evaluations": 600, "distinct": 60, "outcome:flatten-variants": 8000, "outcome:unflatten-roundtrips": 4000, "outcome:reshape-targets": 150},
           "thorough": {"evaluations": 10000, "distinct": 100}}
 
